@@ -83,8 +83,11 @@ def scanNumber (s : Src) (i : Nat) : Option Nat := do
     | none => none
   else some i
 
+/-- The bytes `i … j-1` (those that exist). -/
+def sliceBytes (s : Src) (i j : Nat) : List UInt8 := (List.range (j - i)).filterMap fun k => s.at (i + k)
+
 def sliceString (s : Src) (i j : Nat) : String :=
-  String.ofList ((s.extract i j).toList.map fun b => Char.ofNat b.toNat)
+  String.ofList ((sliceBytes s i j).map fun b => Char.ofNat b.toNat)
 
 def hex4 (s : Src) (i : Nat) : Option Nat := do
   let a ← s.at i; let b ← s.at (i + 1); let c ← s.at (i + 2); let d ← s.at (i + 3)
@@ -177,8 +180,8 @@ def scanString (s : Src) (i : Nat) : Option (String × Bool × Nat) :=
   go (s.size + 1 - i) i [] true
 
 def matchLit (s : Src) (i : Nat) (lit : String) : Bool :=
-  let bs := lit.toUTF8
-  (s.extract i (i + bs.size)) == bs
+  let bs := strBytes lit
+  (List.range bs.length).all fun k => s.at (i + k) == bs[k]?
 
 /-- Keep the last occurrence of every key (every consumer of a decoded object is a Go map or jsonpb's
 `map[string]RawMessage`: the last duplicate wins). -/
